@@ -36,7 +36,7 @@ theorem time_metric (b : Bool) (lo hi : ℝ) : Laws (.time b lo hi) ∧ ExtentLa
   ⟨time_laws b lo hi, time_extent lo hi⟩
 example : inDom (.time true 0 1) (.time (1 / 2 : ℝ)) := by simp [inDom]; norm_num
 
-/-- an unbounded TimeStateSpace reports extent 1 while its distances are unbounded (finding F17). -/
+/-- an unbounded TimeStateSpace reports extent 1 while its distances are unbounded (finding F24). -/
 theorem time_unbounded_extent_fails : ¬ ExtentLaw (.time false 0 0 : Space ℝ) := by
   intro h
   have := h (.time 0) (.time 5) (by show _ → _; simp) (by show _ → _; simp)
@@ -122,7 +122,8 @@ example : inDom (.so3 : Space ℝ) (.so3 0 0 0 1) := by simp [inDom, unitQ]
 
 /-! ## Möbius strip, Klein bottle, sphere (F6, F12) -/
 
-/-- F6: the Möbius distance (intervalMax = 1, the default) is not a metric:
+/-- F6 (fixed by 02d37426b: the space no longer claims `isMetricSpace()`; this is why): the Möbius distance
+(intervalMax = 1, the default) is not a metric:
 `d((-1.6,1),(1.6,1)) = 2π-1.2 > 1.6 + 1.6` via `(0,1)`. -/
 theorem mobius_triangle_fails : ¬ (∀ a b c : St ℝ, inDom (.mobius 1 1 : Space ℝ) a → inDom (.mobius 1 1 : Space ℝ) b →
     inDom (.mobius 1 1 : Space ℝ) c →
@@ -133,7 +134,7 @@ theorem mobius_triangle_fails : ¬ (∀ a b c : St ℝ, inDom (.mobius 1 1 : Spa
   exact h (.ccons (.so2 u1) (.ccons (.rv [v1]) .cnil)) (.ccons (.so2 u2) (.ccons (.rv [v2]) .cnil))
     (.ccons (.so2 u3) (.ccons (.rv [v3]) .cnil)) ⟨h1, k1⟩ ⟨h2, k2⟩ ⟨h3, k3⟩
 
-/-- F6: the Klein-bottle distance is not a metric: `d((0.7,0.1),(2.4,0.1)) = 2π-1.9 > 0.85+0.85` via `(1.55,0.1)`. -/
+/-- F6 (fixed by 02d37426b, as above): the Klein-bottle distance is not a metric: `d((0.7,0.1),(2.4,0.1)) = 2π-1.9 > 0.85+0.85` via `(1.55,0.1)`. -/
 theorem klein_triangle_fails : ¬ (∀ a b c : St ℝ, inDom (.klein : Space ℝ) a → inDom (.klein : Space ℝ) b →
     inDom (.klein : Space ℝ) c →
     dist (.klein : Space ℝ) a c ≤ dist (.klein : Space ℝ) a b + dist (.klein : Space ℝ) b c) := by
@@ -159,7 +160,7 @@ theorem klein_other_laws (u1 v1 u2 v2 : ℝ) (hu1 : 0 ≤ u1 ∧ u1 ≤ Real.pi)
   ⟨Seam.kleinDist_nonneg _ _ _ _ hu1 hu2 hv1 hv2, Seam.kleinDist_self _ _, Seam.kleinDist_symm _ _ _ _ hv1 hv2,
     by rw [Seam.maxExtent_klein]; exact Seam.kleinDist_le_extent _ _ _ _⟩
 
-/-- F19: the two in-bounds states `(u=0, v=0)` and `(u=π, v=-π)` are the same point of the Klein bottle (glued
+/-- F26: the two in-bounds states `(u=0, v=0)` and `(u=π, v=-π)` are the same point of the Klein bottle (glued
 boundary): their distance is 0, yet `equalStates` (componentwise) says they differ — positivity fails. -/
 theorem klein_glued_points_distance_zero :
     SpaceDist.dist (.klein : Space ℝ) (.ccons (.rv [0]) (.ccons (.so2 0) .cnil))
@@ -252,20 +253,29 @@ example : AllLeaves (fun _ => True) CodeLeaf (.ccons 1 (.rv [0] [1]) (.ccons 1 .
 
 /-! ## what the code claims (generated by running it) is covered -/
 
-/-- spaces whose claimed laws are proved above (`shipped_metric` and the leaf theorems) -/
+/-- spaces whose claimed metric laws (incl. symmetry) are proved above (`shipped_metric` and the leaf theorems) -/
 def provedMetric : List String :=
   ["rv", "so2", "se2", "timeUnbounded", "timeBounded", "disc", "torus", "wrapRv", "wrapDisc", "compoundRvSo2",
    "compoundRvDisc"]
-/-- spaces that claim to be metric spaces but are not: kernel-checked witnesses above; KNOWN_FINDINGS F5, F6, F12 -/
-def knownNonMetric : List String := ["so3", "se3", "wrapSo3", "mobius", "klein", "sphere"]
+/-- spaces that claim to be metric spaces but are not: kernel-checked witnesses above; KNOWN_FINDINGS F5, F12 -/
+def knownNonMetric : List String := ["so3", "se3", "wrapSo3", "sphere"]
+/-- spaces that claim a symmetric distance only, with the symmetry proved above (`mobius_other_laws`,
+`klein_other_laws`).  Since the fix 02d37426b Möbius and Klein bottle no longer claim `isMetricSpace()`;
+`mobius_triangle_fails` / `klein_triangle_fails` say why.  They are deliberately NOT in the two lists above:
+if one of them claims to be a metric space again, `claims_covered` fails. -/
+def provedSymmetricOnly : List String := ["mobius", "klein"]
 /-- claims whose proof belongs to C14 (Reeds-Shepp, symmetrised Dubins): checked here by the oracle on the implementation -/
 def delegated : List String := ["reedsShepp", "dubinsSym"]
 
-/-- every shipped space that claims a law (metric space / symmetric distance) is in the proved list, the
-known-non-metric list or the delegated list — a space that starts claiming a law nobody proved breaks the build. -/
+/-- every shipped space that claims to be a metric space is in the proved list, the known-non-metric list or the
+delegated list, and every space that claims a symmetric distance is in one of those or in the symmetric-only list —
+a space that starts claiming a law nobody proved breaks the build. -/
 theorem claims_covered :
-    ∀ c ∈ claims, (c.metric = true ∨ c.symDist = true) →
-      c.name ∈ provedMetric ∨ c.name ∈ knownNonMetric ∨ c.name ∈ delegated := by decide
+    ∀ c ∈ claims,
+      (c.metric = true → c.name ∈ provedMetric ∨ c.name ∈ knownNonMetric ∨ c.name ∈ delegated) ∧
+      (c.symDist = true →
+        c.name ∈ provedMetric ∨ c.name ∈ knownNonMetric ∨ c.name ∈ provedSymmetricOnly ∨ c.name ∈ delegated) := by
+  decide
 example : ∃ c ∈ claims, c.metric = true := by decide
 
 end OmplModel.C06
